@@ -229,12 +229,17 @@ _ADDENDA = {
     "C01": " Also: on every exit of the ODE right-hand side the orientation block is c*(kernel rate) + A*S with S skew (first-order orthonormality).",
     "C04": " Also: the driver's strain-rate scale is a rotation invariant, and every data-dependent branch condition evaluated inside the ODE "
            "right-hand side compares rotation invariants (frame-invariant boundaries between the pieces of a piecewise right-hand side).",
-    "C10": " Also: call-history independence (same stiffness record with new contents, new record, same minerals with new snapshots).",
+    "C10": " Also: call-history independence (same stiffness record with new contents, new record, same minerals with new snapshots); several "
+           "aligned grains with general volumes; every early-exit path of the average and its helpers is held to the reference on its region.",
     "C11": " Also: every data-dependent early-exit path of each function is followed once and held to the generic result on its region "
            "(rotation: the four diagonal sign matrices); a second call with exchanged values returns the exchanged result (no stale memo).",
     "C13": " Also: early-exit paths of the eigenvalue computation are followed (a closed-form solver is compared with the eigenvalues of the "
            "scatter matrix at witness points); call-history independence.",
     "C15": " Also: two calls with the same seed and inputs in one process select with the same draws.",
+    "C02": " Also: cells that may be infinite (a masked store of inf) are followed as selections, so a CRSS table shared between grains and "
+           "modified per grain is compared with the reference on the boundary worlds of its guards.",
+    "C03": " Also: skew / conserve / dead are re-decided on the path through every data-dependent early exit of the rate computation (forced for "
+           "the first grain only and for every grain).",
     "C20": " Also: no counting kernel applies exp/cosh/sinh to an argument that can exceed the float64 overflow threshold on the domain; "
            "early-exit paths and call-history independence of the conversion functions.",
 }
@@ -245,6 +250,8 @@ _TECH = {
     "C13": "; forced early-exit path interpretation; second-call (history) comparison",
     "C20": "; sign analysis of exponential arguments; forced early-exit path interpretation",
     "C04": "; Lie derivative of branch conditions",
+    "C03": "; forced early-exit path interpretation",
+    "C10": "; forced early-exit path interpretation; second-call (history) comparison",
 }
 for _k, _v in _TECH.items():
     CLAIMS[_k]["technique"] += _v
